@@ -1,6 +1,137 @@
 import SigpyVerif.Model.Py
 import SigpyVerif.Model.Proto
+import SigpyVerif.Model.C03
+/-
+  Line protocol of property C03.
+
+    C03 eval xs=<shape> x=<gaussian rationals> <prog…>
+        prog = reverse-polish construction of the tree, one token per node:
+          L:<oshape>:<ishape>:<dense matrix, row-major>     leaf
+          C:<n>  A:<n>            Compose / Add of the top n operators (first pushed = linops[0])
+          ML:<a>  MR:<a>  N  S    a*A, A*a, -A, A-B
+          H:<n>:<axis>  V:<n>:<axis>  D:<n>:<oaxis>:<iaxis>      axis = int | none
+        reply: `ok <oshape> <ishape> <output shape>|<output data>`   (apply succeeded)
+               `ok <oshape> <ishape> apply-error`                    (built, application raises)
+               `err build`                                           (a constructor raises)
+    C03 params shapes=<s1>|<s2>|… axis=<int|none>
+        reply: `ok <shape> <indices>` | `err build`
+-/
 namespace SigpyVerif.Drv.C03
+open SigpyVerif SigpyVerif.Proto SigpyVerif.C03
+
+def toG (z : Rat × Rat) : GRat := ⟨z.1, z.2⟩
+def fmtG (z : GRat) : String := fmtCRat (z.re, z.im)
+def fmtGList (l : List GRat) : String := if l.isEmpty then "-" else ",".intercalate (l.map fmtG)
+def fmtShape (s : List Nat) : String := fmtIntList (s.map Int.ofNat)
+
+def parseAxis? (s : String) : Option (Option Int) :=
+  if s == "none" then some none else (parseInt? s).map some
+
+def parseNat? (s : String) : Option Nat := (parseInt? s).bind fun i => if 0 ≤ i then some i.toNat else none
+
+def chunkRows (k : Nat) : Nat → List GRat → List (List GRat)
+  | 0, _ => []
+  | m + 1, l => l.take k :: chunkRows k m (l.drop k)
+
+/-- pop the top `n` operators (returned in push order) -/
+def popN (n : Nat) (st : List (Op GRat)) : Option (List (Op GRat) × List (Op GRat)) :=
+  if n ≤ st.length then some ((st.take n).reverse, st.drop n) else none
+
+inductive Step | ok (st : List (Op GRat)) | build | bad
+
+def pushR (r : Except Err (Op GRat)) (st : List (Op GRat)) : Step :=
+  match r with
+  | .ok A => .ok (A :: st)
+  | .error _ => .build
+
+def step (st : List (Op GRat)) (tok : String) : Step :=
+  match tok.splitOn ":" with
+  | ["L", o, i, d] =>
+    match parseIntList? o, parseIntList? i, parseCRatList? d with
+    | some osh, some ish, some dat =>
+      let isz := (ish.map Int.toNat).foldr (· * ·) 1
+      let osz := (osh.map Int.toNat).foldr (· * ·) 1
+      if dat.length ≠ osz * isz then .bad else
+      pushR (matOp osh ish (chunkRows isz osz (dat.map toG))) st
+    | _, _, _ => .bad
+  | ["C", n] =>
+    match (parseNat? n).bind (popN · st) with
+    | some (ops, rest) => pushR (compose ops) rest
+    | none => .bad
+  | ["A", n] =>
+    match (parseNat? n).bind (popN · st) with
+    | some (ops, rest) => pushR (add ops) rest
+    | none => .bad
+  | ["ML", a] =>
+    match parseCRat? a, st with
+    | some a, A :: rest => pushR (scaleL (toG a) A) rest
+    | _, _ => .bad
+  | ["MR", a] =>
+    match parseCRat? a, st with
+    | some a, A :: rest => pushR (scaleR A (toG a)) rest
+    | _, _ => .bad
+  | ["N"] =>
+    match st with
+    | A :: rest => pushR (neg A) rest
+    | _ => .bad
+  | ["S"] =>
+    match st with
+    | B :: A :: rest => pushR (sub A B) rest
+    | _ => .bad
+  | ["H", n, ax] =>
+    match (parseNat? n).bind (popN · st), parseAxis? ax with
+    | some (ops, rest), some ax => pushR (hstack ops ax) rest
+    | _, _ => .bad
+  | ["V", n, ax] =>
+    match (parseNat? n).bind (popN · st), parseAxis? ax with
+    | some (ops, rest), some ax => pushR (vstack ops ax) rest
+    | _, _ => .bad
+  | ["D", n, oax, iax] =>
+    match (parseNat? n).bind (popN · st), parseAxis? oax, parseAxis? iax with
+    | some (ops, rest), some oax, some iax => pushR (diag ops oax iax) rest
+    | _, _, _ => .bad
+  | _ => .bad
+
+def run : List (Op GRat) → List String → Step
+  | st, [] => .ok st
+  | st, t :: ts =>
+    match step st t with
+    | .ok st' => run st' ts
+    | .build => .build
+    | .bad => .bad
+
+def splitBar (s : String) : List String := s.splitOn "|"
+
 /-- protocol handler for property C03 (tokens after the property id). -/
-def handle (_toks : List String) : String := "err bad-op"
+def handle (toks : List String) : String :=
+  match toks with
+  | "eval" :: xs :: x :: prog =>
+    match (xs.splitOn "="), (x.splitOn "=") with
+    | ["xs", xs], ["x", x] =>
+      match parseIntList? xs, parseCRatList? x with
+      | some xsh, some xd =>
+        if xsh.any (· < 0) then "err bad-op" else
+        match run [] prog with
+        | .bad => "err bad-op"
+        | .build => "err build"
+        | .ok [A] =>
+          let hd := s!"ok {fmtShape A.oshape} {fmtShape A.ishape} "
+          match A.call ⟨xsh.map Int.toNat, xd.map toG⟩ with
+          | .ok y => hd ++ s!"{fmtShape y.shape}|{fmtGList y.data}"
+          | .error _ => hd ++ "apply-error"
+        | .ok _ => "err bad-op"
+      | _, _ => "err bad-op"
+    | _, _ => "err bad-op"
+  | ["params", sh, ax] =>
+    match (sh.splitOn "="), (ax.splitOn "=") with
+    | ["shapes", sh], ["axis", ax] =>
+      match (splitBar sh).mapM parseIntList?, parseAxis? ax with
+      | some shapes, some ax =>
+        if shapes.any (·.any (· < 0)) then "err bad-op" else
+        match stackParams (shapes.map (·.map Int.toNat)) ax with
+        | .ok (s, ind) => s!"ok {fmtShape s} {fmtShape ind}"
+        | .error _ => "err build"
+      | _, _ => "err bad-op"
+    | _, _ => "err bad-op"
+  | _ => "err bad-op"
 end SigpyVerif.Drv.C03
